@@ -4,4 +4,6 @@ EXTENDS Reply
 CONSTANT CtrMax
 Bound == ctr <= CtrMax
 View  == state                      \* obs is an observation, not state
+CMsgDom == {<<0, 2, 104>>}
+CTextDom == {<<2, <<111, 107>>>>}
 =============================================================================
